@@ -130,7 +130,10 @@ pub fn strategy() -> BoxedStrategy<Case> {
             let exact = (select(pool.clone()), prop_oneof![3 => Just(vec![]), 1 => Just(vec![MId::Str("x".to_string())])]).prop_map(|(b, build)| b.with_build(build));
             (
                 leaf_text(pool, 3),
-                proptest::collection::vec(prop_oneof![2 => near, 2 => exact], 0..=12),
+                prop_oneof![
+                    12 => proptest::collection::vec(prop_oneof![2 => near.clone(), 2 => exact.clone()], 0..=12),
+                    1 => proptest::collection::vec(prop_oneof![2 => near, 2 => exact], 60..=140),
+                ],
                 proptest::collection::vec((0usize..12, any::<bool>()), 3),
             )
         })
